@@ -87,7 +87,13 @@ func (e Expression) MarshalYAML() (interface{}, error) {
 		case FloatExpression:
 			return float64(e), nil
 		case StringExpression:
-			return string(e), nil
+			// Plain strings are read back via ExpressionFromString, which
+			// turns those that look like points, feature IDs or lists
+			// of values into something else. Those strings are written
+			// with their type instead, as other expressions are.
+			if _, ok := ExpressionFromString(string(e)).AnyExpression.(StringExpression); ok {
+				return string(e), nil
+			}
 		case Expressions:
 			return e.String(), nil
 		}
